@@ -435,4 +435,31 @@ class SameNames(object):
         return observe(mods, truth, kinds, 'C01|D|same-name')
 
 
-FAMILIES = [Shapes(), Spellings(), Kinds(), SameNames()]
+class ArcZero(object):
+    name = 'E-arc-zero'
+    describe = 'a node whose last arc is 0 as the parent of each OID-bearing kind (a TRAP-TYPE then gets <...>.0.0.<n>), forward and backward order'
+
+    def blocks(self, tier):
+        return [{}]
+
+    def cases(self, block, tier):
+        for k in KINDS:
+            for rev in (0, 1):
+                yield {'kind': k, 'rev': rev}
+
+    def run_case(self, case):
+        zero = ENTERPRISES + (4242, 0)
+        decls = [make_decl('ot', 'helperObj', ['enterprises', 9000, 1]), make_decl('nt', 'helperNotif', ['enterprises', 9000, 2]),
+                 make_decl('og', 'helperGroup', ['enterprises', 9000, 3]),
+                 {'k': 'value', 'name': 'zeroNode', 'oid': ['enterprises', 4242, 0]}]
+        sub = make_decl(case['kind'], 'subject', ['zeroNode', 5])
+        decls = decls + [sub] if not case['rev'] else [sub] + decls
+        imports = {'SNMPv2-SMI': ['enterprises', 'OBJECT-TYPE', 'Integer32', 'NOTIFICATION-TYPE', 'OBJECT-IDENTITY',
+                                  'MODULE-IDENTITY', 'TRAP-TYPE'],
+                   'SNMPv2-CONF': ['OBJECT-GROUP', 'NOTIFICATION-GROUP', 'MODULE-COMPLIANCE', 'AGENT-CAPABILITIES']}
+        mods = [{'name': 'ALPHA-MIB', 'imports': sorted(imports.items()), 'decls': decls}]
+        truth = {'ALPHA-MIB': {'zeroNode': zero, 'subject': zero + ((0, 5) if case['kind'] == 'trap' else (5,))}}
+        return observe(mods, truth, {'zeroNode': 'value', 'subject': case['kind']}, 'C01|E|arc-zero|%s' % case['kind'])
+
+
+FAMILIES = [Shapes(), Spellings(), Kinds(), SameNames(), ArcZero()]
